@@ -138,7 +138,7 @@ def AV(ctx: Ctx, everything: bool = False) -> "_av.AV":
     key = "_av_all" if everything else "_av"
     a = ctx.__dict__.get(key)
     if a is None:
-        a = _av.AV(ctx.sm, inline=(lambda callee: True) if everything else None)
+        a = _av.AV(ctx.sm, inline=(lambda callee: True) if everything else None, cha=everything)
         ctx.__dict__[key] = a
     return a
 
@@ -245,7 +245,7 @@ def verdict(v, wants) -> str:
 # reference implementations: "this function computes what the vetted version computed"
 
 
-def reference_value(ctx: Ctx, short: str, qualname: str, ref_src: str, args: dict | None = None):
+def reference_value(ctx: Ctx, short: str, qualname: str, ref_src: str, args: dict | None = None, everything: bool = False):
     """Abstract value of the vetted reference text of a function, evaluated in the *current* module (so that the
     helpers, imports and module constants it refers to are today's)."""
     import textwrap
@@ -253,7 +253,7 @@ def reference_value(ctx: Ctx, short: str, qualname: str, ref_src: str, args: dic
     from sa.sm import SourceModel
 
     cache = ctx.__dict__.setdefault("_ref_values", {})
-    key = (short, qualname, ref_src, tuple(sorted((args or {}).items())))
+    key = (short, qualname, ref_src, tuple(sorted((args or {}).items())), everything)
     if key in cache:
         return cache[key]
     f = ctx.sm.func(short, qualname)
@@ -268,7 +268,7 @@ def reference_value(ctx: Ctx, short: str, qualname: str, ref_src: str, args: dic
     overlay[rel] = "\n".join(lines[:start] + new + lines[end:])
     sm2 = SourceModel(ctx.repo, overlay=overlay)
     f2 = sm2.func(short, qualname)
-    val = _av.AV(sm2).returned(f2, args)[0]
+    val = (_av.AV(sm2, inline=lambda callee: True, cha=True) if everything else _av.AV(sm2)).returned(f2, args)[0]
     cache[key] = val
     return val
 
@@ -282,6 +282,19 @@ def same_as_reference(ctx: Ctx, rule: str, short: str, qualname: str, ref_src: s
     if project is not None:
         cur, ref = project(cur), project(ref)
     vd = verdict(cur, [ref])
+    if vd == "bad":
+        # second chance: the difference may be a helper that one side calls and the other spells out - expand every
+        # package function both sides call (also public ones; methods by unique name) and compare again.  Equal values
+        # after expansion are equal functions; anything else leaves the first verdict.
+        try:
+            cur2 = value_of(ctx, f, args, everything=True)
+            ref2 = reference_value(ctx, short, qualname, ref_src, args, everything=True)
+            if project is not None:
+                cur2, ref2 = project(cur2), project(ref2)
+            if not _av.has_unk(cur2) and verdict(cur2, [ref2]) == "ok":
+                vd = "ok"
+        except Exception:
+            pass
     k = f.key(key)
     if vd == "unknown":
         ctx.undecided(rule, k, f"what {qualname} computes is not understood ({(_av.find_all(cur, 'unk') or [('', '?')])[0][1]})", f.where())
